@@ -240,6 +240,69 @@ def dst_day_edge(rng, name):
     return Observer(lat, lon), d, z
 
 
+def no_event_day(rng, idx):
+    """(observer, zone, date): a UTC day on which the moon does not rise (idx 0) / set (idx 1) at
+    all — about once per lunar month — asked for in a zone away from UTC, so that the answer has
+    to come from a neighbouring UTC day and be expressed in that zone"""
+    lat, lon = rng.uniform(-55, 55), rng.uniform(-180, 180)
+    o = Observer(lat, lon)
+    d0 = gens.rand_date(rng, wide=False)
+    for k in range(31):
+        d = d0 + datetime.timedelta(days=k)
+        st, v = call(moon.riseset, d, o)
+        if st == "ok" and v[idx] is None:
+            off = rng.choice([-1, 1]) * rng.choice([180, 330, 345, 540, 600, 660, 720])
+            z = zones.fixed(off) if rng.random() < 0.6 else zones.iana(rng.choice(zones.IANA_NAMES))
+            return o, z, d + datetime.timedelta(days=rng.choice([-1, 0, 0, 1]))
+    return None
+
+
+def ra_wrap_hour(rng, idx):
+    """(observer, date): the moon event placed in the very UTC hour in which the moon's right
+    ascension passes through 0h/24h (once per 27.3 days) — where an unwrapped interpolation window
+    is off by a whole turn"""
+    import math
+    d0 = gens.rand_date(rng, wide=False)
+    try:
+        j0 = moon.julianday_2000(d0)
+    except Exception:  # noqa: BLE001
+        return None
+    ra = lambda h: moon.moon_position(j0 + h / 24.0).right_ascension % (2 * math.pi)  # noqa: E731
+    prev = ra(0)
+    wrap = None
+    for h6 in range(6, 28 * 24, 6):              # coarse, then the hour inside the 6-hour window
+        cur = ra(h6)
+        if cur < prev - math.pi:
+            p2 = prev
+            for h in range(h6 - 5, h6 + 1):
+                c2 = ra(h)
+                if c2 < p2 - math.pi:
+                    wrap = datetime.datetime(d0.year, d0.month, d0.day, tzinfo=UTC) + \
+                        datetime.timedelta(hours=h - 1)
+                    break
+                p2 = c2
+            break
+        prev = cur
+    if wrap is None or wrap.year > 2099:
+        return None
+    target = wrap + datetime.timedelta(minutes=rng.uniform(2, 58))
+    lat, lon = rng.uniform(-50, 50), rng.uniform(-180, 180)
+    for _ in range(4):
+        best = None
+        for du in (-1, 0, 1):
+            st, v = call(moon.riseset, target.date() + datetime.timedelta(days=du), Observer(lat, lon))
+            if st == "ok" and v[idx] is not None:
+                gap = (target - v[idx]).total_seconds() / 60.0
+                if best is None or abs(gap) < abs(best):
+                    best = gap
+        if best is None:
+            return None
+        if abs(best) < 4:
+            break
+        lon = (lon - best / 4.14 + 180.0) % 360.0 - 180.0
+    return Observer(lat, lon), target.date()
+
+
 def gen_riseset(rng, n, tier="quick"):
     # consecutive dates for one observer, in ascending order, across two lunar months: state
     # carried from one day's scan to the next (cached, mutated positions) shows up
@@ -282,7 +345,18 @@ def gen_riseset(rng, n, tier="quick"):
             z = zones.rand_zone(rng, d0)
             d = gens.rand_date(rng, z, wide=False) if z.iana else d0
             name = "moonrise" if k == 1 else "moonset"
-            if rng.random() < 0.10:
+            r_ = rng.random()
+            if r_ < 0.08:
+                e = no_event_day(rng, 0 if name == "moonrise" else 1)
+                if e is not None:
+                    o, z, d = e
+                    lat, lon = o.latitude, o.longitude
+            elif r_ < 0.14:
+                e = ra_wrap_hour(rng, 0 if name == "moonrise" else 1)
+                if e is not None:
+                    o, d = e
+                    lat, lon = o.latitude, o.longitude
+            elif r_ < 0.24:
                 e = dst_day_edge(rng, name)
                 if e is not None:
                     o, d, z = e
